@@ -164,3 +164,8 @@ func AtEntry(f func() any) any { panic("verifspec: ghost function") }
 // LastCASOld: the content an atomic pointer cell had immediately before the
 // last successful CompareAndSwap / Store of the code under contract.
 func LastCASOld() unsafe.Pointer { panic("verifspec: ghost function") }
+
+// JSONFaithful(v): the assumed property of a value's own JSON encoding that
+// C15 is relative to: json.Marshal(v) succeeds, its output is not the literal
+// null, and json.Unmarshal of that output yields a value Eq to v.
+func JSONFaithful(v any) bool { panic("verifspec: ghost function") }
